@@ -135,7 +135,27 @@ QNcFixed == <<
      path with every element conversion, on a primitive and an arbitrary-int base *)
   MkDecl(32, <<>>, NameFields(ListKinds(32)), <<EnumExh("E2", 2), EnumNonExh("O3", 3)>>, <<>>, FALSE),
   MkDecl(27, <<>>, NameFields(ListKinds(27)), <<EnumExh("E2", 2), EnumNonExh("O3", 3)>>, <<>>, FALSE)
-  >>
+  >> \o
+  (* list arrays whose element 0 lies in the low half (quarter) of the storage while later elements cross into the upper part:
+     an accessor must not size its arithmetic by element 0 alone *)
+  [k \in 1..8 |-> LET W == <<16, 32, 64, 128, 24, 40, 100, 127>>[k] IN
+     MkDecl(W, <<>>, NameFields(<< LA(<< <<0, 0>>, <<2, 3>> >>, W \div 4, 4), LA(<< <<1, 1>>, <<0, 0>> >>, W \div 2, 2),
+                                   LA(<< <<0, 1>>, <<4, 5>> >>, W \div 8, 8) >>
+                                \o (IF W >= 32 THEN << LSA(<< <<0, 3>>, <<8, 11>> >>, W \div 16, 16) >> ELSE <<>>)), <<>>, <<>>, FALSE)]
+
+---------------------------------------------------------------------------
+(* Q-dup: range lists that name a bit twice.  The macro accepts them (no builder, C14); their value is outside C04's
+   guarantee, but the calls must be total and the same in every profile (C16) and stay below bit N (C11). *)
+DupFields(W) == <<
+  L(<< <<0, 3>>, <<2, 5>> >>), L(<< <<2, 5>>, <<0, 3>> >>), L(<< <<W - 4, W - 1>>, <<W - 2, W - 1>> >>),
+  L(<< <<W - 1, W - 1>>, <<W - 1, W - 1>> >>), L(<< <<W - 2, W - 1>>, <<W - 4, W - 1>> >>), L(<< <<0, 0>>, <<0, 0>>, <<0, 0>> >>),
+  LS(<< <<0, 3>>, <<2, 5>> >>), LS(<< <<W - 4, W - 1>>, <<W - 4, W - 1>> >>), LS(<< <<W - 8, W - 1>>, <<W - 8, W - 1>> >>),
+  L(<< <<W - 8, W - 1>>, <<W - 8, W - 1>> >>), LA(<< <<0, 1>>, <<1, 2>> >>, 2, 4), LA(<< <<W - 6, W - 5>>, <<W - 6, W - 5>> >>, 2, 4),
+  L(<< <<0, W - 1>>, <<W - 1, W - 1>> >>) >>
+QDup == [k \in 1..8 |-> LET W == <<8, 16, 32, 64, 128, 13, 24, 100>>[k] IN
+           MkDecl(W, <<>>, NameFields(SelectSeq(DupFields(W), LAMBDA f : /\ Width(f) <= 128 /\ (f.kind # "inat" \/ Width(f) \in Native)
+                                  (* a listed range as wide as the storage is rejected by constant evaluation: also fine, not traced *)
+                                  /\ \A j \in 1..Len(f.ranges) : f.ranges[j][2] - f.ranges[j][1] + 1 < Sto(W))), <<>>, <<>>, FALSE)]
 
 ---------------------------------------------------------------------------
 (* Q-cust: enum / Option<enum> / nested-bitfield typed fields (C08)          *)
@@ -177,10 +197,13 @@ DefBits(W, k) == CASE k = 1 -> AsSeq({0})
                    [] k = 2 -> AsSeq({W - 1})
                    [] k = 3 -> AsSeq(0..(W - 1))
                    [] OTHER -> AsSeq({b \in 0..(W - 1) : b % 3 = 0})
+(* spellings of the default: hex literal, named constant, decimal, underscores, binary, octal, and literals that carry the
+   storage type as a suffix (gen/rustgen.py default_literal) *)
+DefForms == <<"lit", "const", "dec", "hexsuf", "bin_", "const", "decsuf", "dec_", "hexsuf_", "oct", "binsuf">>
 BaseDecl(W, def, form, syn, fields) ==
   [MkDecl(W, def, fields, <<>>, <<>>, FALSE) EXCEPT !.defform = form, !.defsyn = syn]
 QBase == SetToSeq({BaseDecl(W, <<>>, "lit", "=", <<>>) : W \in AllBases})
-         \o SetToSeq({BaseDecl(W, <<DefBits(W, (W % 4) + 1)>>, IF W % 3 = 0 THEN "const" ELSE "lit",
+         \o SetToSeq({BaseDecl(W, <<DefBits(W, (W % 4) + 1)>>, DefForms[(W % 11) + 1],
                                IF W % 5 = 0 THEN ":" ELSE "=",
                                (* one field that does not cover all default bits *)
                                <<Fld("lo", "bool", 1, 0, << <<0, 0>> >>, FALSE, <<>>, <<>>, "rw")>>) : W \in AllBases})
@@ -340,7 +363,18 @@ QB14 == <<
   B14(128, ZeroDef, << N(Scalar("unat", 128, 0, "rw"), "all") >>),
   B14(64, ZeroDef, << N(Scalar("unat", 64, 0, "rw"), "all") >>),
   B14(128, <<>>, << N(Scalar("unat", 128, 0, "rw"), "all") >>),
-  B14(64, <<>>, << N(Scalar("inat", 64, 0, "w"), "all") >>)
+  B14(64, <<>>, << N(Scalar("inat", 64, 0, "w"), "all") >>),
+  (* the type-state mask has as many bits as the base: fields that live entirely above bit 16 / 32 / 64 / 96 must advance it *)
+  B14(128, <<>>, << N(Scalar("unat", 64, 0, "rw"), "lo"), N(Scalar("unat", 32, 64, "rw"), "mid"), N(Scalar("unat", 32, 96, "rw"), "hi") >>),
+  B14(128, ZeroDef, << N(Scalar("unat", 8, 0, "rw"), "a"), N(Scalar("unat", 8, 64, "rw"), "b"), N(Scalar("bool", 1, 127, "rw"), "c") >>),
+  B14(128, ZeroDef, << N(Scalar("unat", 8, 64, "rw"), "b"), N(Scalar("uarb", 7, 120, "w"), "c") >>),
+  B14(100, ZeroDef, << N(Scalar("unat", 32, 0, "rw"), "a"), N(Scalar("uarb", 4, 96, "rw"), "b"), N(Scalar("uarb", 31, 64, "rw"), "c") >>),
+  B14(65, ZeroDef, << N(Scalar("unat", 64, 0, "rw"), "a"), N(Scalar("bool", 1, 64, "rw"), "top") >>),
+  B14(65, <<>>, << N(Scalar("unat", 64, 0, "rw"), "a"), N(Scalar("bool", 1, 64, "rw"), "top") >>),
+  B14(64, <<>>, << N(Scalar("unat", 32, 0, "rw"), "lo"), N(Scalar("unat", 32, 32, "rw"), "hi") >>),
+  B14(64, ZeroDef, << N(Scalar("bool", 1, 31, "rw"), "a"), N(Scalar("bool", 1, 32, "rw"), "b"), N(Scalar("bool", 1, 63, "rw"), "c") >>),
+  B14(32, <<>>, << N(Scalar("unat", 16, 0, "rw"), "lo"), N(Scalar("unat", 16, 16, "rw"), "hi") >>),
+  B14(128, ZeroDef, << N(ArrFld("unat", 16, 0, 0, 8, <<>>, "rw"), "h"), N(Scalar("bool", 1, 64, "r"), "peek") >>)
   >>
 
 ---------------------------------------------------------------------------
@@ -360,6 +394,7 @@ CorpusByName(nm) ==
     [] nm = "arr"   -> Renumber(QArr)
     [] nm = "nc"    -> Renumber(QNcFixed)
     [] nm = "cust"  -> Renumber(QCust)
+    [] nm = "dup"   -> Renumber(QDup)
     [] nm = "base"  -> Renumber(QBase)
     [] nm = "bld"   -> Renumber(QBld)
     [] nm = "dbg"   -> Renumber(QDbg)
